@@ -6,6 +6,7 @@ import MiniMoka.Wire
 import MiniMoka.Unsync
 import MiniMoka.Sync
 import MiniMoka.Spec.Oracles
+import MiniMoka.DequeHeap
 
 namespace MiniMoka
 namespace Driver
@@ -17,12 +18,103 @@ inductive Machine where
   | dead                                   -- after a panic: skip to the next case
   | unsync (p : Params) (s : Unsync.UState)
   | sync (p : Params) (s : Sync.SState)
+  | sketch (s : Sketch)
+  | deque (s : DequeHeap.FState)
 
 /-- The operation part of a trace line (`op` or `op -> observation`). -/
 def opPart (line : String) : String :=
   match line.splitOn " -> " with
   | a :: _ => a
   | [] => line
+
+/-! ### facade components -/
+
+def optS (o : Option Nat) : String :=
+  match o with
+  | some v => s!"some {v}"
+  | none => "none"
+
+def sketchLine (s : Sketch) (op : String) : Sketch × String × Bool :=
+  match op.splitOn " " with
+  | ["skt.ensure", c] =>
+    match c.toNat? with
+    | some c => (s.ensureCapacity c, "ok", false)
+    | none => (s, "bad-op", false)
+  | ["skt.cap", c] =>
+    match c.toNat? with
+    | some c => (s, s!"cap {Sketch.sketchCapacity c}", false)
+    | none => (s, "bad-op", false)
+  | ["skt.inc", h] =>
+    match h.toNat? with
+    | some h =>
+      match s.increment false h.toUInt64 with
+      | .ok s' => (s', "ok", false)
+      | .error f => (s, s!"panic {f.toString}", true)
+    | none => (s, "bad-op", false)
+  | ["skt.freq", h] =>
+    match h.toNat? with
+    | some h => (s, s!"freq {s.frequency h.toUInt64}", false)
+    | none => (s, "bad-op", false)
+  | ["skt.dump"] => (s, s!"skt {s.size},{s.sampleSize},{s.table.size},{hex64 s.crc}", false)
+  | _ => (s, "bad-op", false)
+
+def fobs : DequeHeap.FObs → String
+  | .unit => "ok"
+  | .optNat o => optS o
+  | .bool b => if b then "true" else "false"
+  | .optBool none => "none"
+  | .optBool (some b) => if b then "some true" else "some false"
+  | .optOptNat none => "none"
+  | .optOptNat (some none) => "some none"
+  | .optOptNat (some (some v)) => s!"some some:{v}"
+  | .nat n => s!"len {n}"
+  | .dump elems cs cur =>
+    let e := ",".intercalate (elems.map toString)
+    let c := match cur with
+      | some c => toString c
+      | none => "-"
+    s!"dump [{e}] {cs} {c}"
+  | .dumpErr m => s!"dump-error {m}"
+  | .fault f => s!"panic {f.toString}"
+
+def dequeOp (op : String) : Option DequeHeap.FOp :=
+  match op.splitOn " " with
+  | ["dq.push", i] => i.toNat?.map .pushBack
+  | ["dq.pop"] => some .popFront
+  | ["dq.peek"] => some .peekFront
+  | ["dq.contains", i] => i.toNat?.map .contains
+  | ["dq.mtb", i] => i.toNat?.map .moveToBack
+  | ["dq.mftb"] => some .moveFrontToBack
+  | ["dq.unlink", i] => i.toNat?.map .unlink
+  | ["dq.relink", i] => i.toNat?.map .relinkBack
+  | ["dq.uad", i] => i.toNat?.map .unlinkAndDrop
+  | ["dq.next", i] => i.toNat?.map .nextOf
+  | ["dq.iter"] => some .iterNext
+  | ["dq.len"] => some .len
+  | ["dq.dump"] => some .dump
+  | _ => none
+
+def facadeLine (m : Machine) (op : String) : Machine × Option String :=
+  match m with
+  | .sketch s =>
+    let (s', out, dead) := sketchLine s op
+    (if dead then .dead else .sketch s', some s!"{op} -> {out}")
+  | .deque st =>
+    match dequeOp op with
+    | none => (m, some s!"{op} -> bad-op")
+    | some (.pushBack id) =>
+      if (AL.get? st.nodes id).isSome then (m, some s!"{op} -> bad-op")
+      else
+        let (st', ob) := DequeHeap.fstep st (.pushBack id)
+        (match ob with
+         | .fault _ => .dead
+         | _ => .deque st', some s!"{op} -> {fobs ob}")
+    | some fo =>
+      let (st', ob) := DequeHeap.fstep st fo
+      (match ob with
+       | .fault _ => .dead
+       | _ => .deque st', some s!"{op} -> {fobs ob}")
+  | _ => (m, none)
 
 def stepLine (m : Machine) (line : String) : Machine × Option String :=
   let op := (opPart line).trimAscii.toString
@@ -34,10 +126,14 @@ def stepLine (m : Machine) (line : String) : Machine × Option String :=
       match c.kind with
       | .unsync => (.unsync c.params {}, some s!"{op} -> ok")
       | .sync => (.sync c.params {}, some s!"{op} -> ok")
+      | .sketch => (.sketch {}, some s!"{op} -> ok")
+      | .deque => (.deque {}, some s!"{op} -> ok")
   else
     match m with
     | .idle => (m, some s!"{op} -> bad-op")
     | .dead => (m, none)
+    | .sketch _ => facadeLine m op
+    | .deque _ => facadeLine m op
     | .unsync p s =>
       match parseOp op with
       | none => (m, some s!"{op} -> bad-op")
@@ -70,8 +166,8 @@ partial def loop (h : IO.FS.Stream) (out : IO.FS.Stream) (m : Machine) : IO Unit
 
 def kindOf (c : Cfg) : Spec.Kind :=
   match c.kind with
-  | .unsync => .unsync
   | .sync => .sync
+  | _ => .unsync
 
 /-- The oracle of a property, by its id. `none` = no such oracle. -/
 def oracleFor (prop : String) (c : Cfg) (t : Spec.Trace) : Option Bool :=
@@ -84,6 +180,7 @@ def oracleFor (prop : String) (c : Cfg) (t : Spec.Trace) : Option Bool :=
   | "C07" => some (Spec.oracleC07 (kindOf c) t)
   | "C16" => some (Spec.oracleC16 (kindOf c) c.ttl c.tti t)
   | "C04" => some (Spec.oracleC04 (kindOf c) c.cap t)
+  | "C03" => some (Spec.oracleC03 (kindOf c) c.cap c.ttl c.tti c.params.weigh t)
   | _ => none
 
 structure Case where
@@ -98,6 +195,9 @@ def finishCase (prop : String) (out : IO.FS.Stream) (c : Case) : IO Unit := do
   | some e, _ => out.putStrLn s!"case {c.idx} PARSE-ERROR {e}"
   | none, none => out.putStrLn s!"case {c.idx} SKIP {c.cfgLine}"
   | none, some cfg =>
+    if (cfg.kind == .sketch || cfg.kind == .deque) && prop != "C08" then
+      out.putStrLn s!"case {c.idx} SKIP facade"
+    else
     match oracleFor prop cfg c.trace.reverse with
     | none => out.putStrLn s!"case {c.idx} NO-ORACLE {prop}"
     | some true => out.putStrLn s!"case {c.idx} ok"
